@@ -17,6 +17,22 @@ CLAIMED = {
    text="Every C09 algorithm (kosaraju_scc, tarjan_scc, TarjanScc::run + node_component_index, connected_components, has_path_connecting with fresh and reused DfsSpace, is_cyclic_directed/undirected, is_bipartite_undirected, toposort fresh/reused, condensation with and without make_acyclic) is run on every encoding (Graph, StableGraph, MatrixGraph, GraphMap, Csr, adj::List) x history (fresh, shuffled, garbage-then-remove) of exhaustive small graphs and seeded random/adversarial shapes; each recorded output is judged by TLC against definitions in GraphTheory.tla/OracleC09.tla (reachability closure, mutual-reachability classes, forest edge count, 2-colourability by exhaustive colouring).",
    note="Trusted: TLC, GraphTheory.tla definitions, harness id mapping. Inputs bounded (exhaustive n<=3, random n<=6/7, binomial union orders to 16 nodes): exploration beyond. One genuine defect (Csr undirected edge_references) found and fixed.",
    design="4/C09", technique="TLA+ oracle spec evaluated by TLC on recorded (input, output) pairs"),
+ "C10": dict(
+   text="dijkstra (with/without goal), astar (goal sets; zero, exact and admissible-but-inconsistent heuristics whose admissibility the oracle re-checks) and k_shortest_path (k=1..3) run on every admissible encoding x history with integer and f64 costs including zero-cost edges; outputs judged by TLC against OracleC10.tla: distances = minimum over all walks of bounded length (Paths.tla), path validity and optimality, k-th cheapest walk by counting walks per (length, node, cost).",
+   note="Trusted: TLC, Paths.tla definitions, harness id mapping. k_shortest_path oracle only for n<=3 and costs<=3 (DP size). Costs are small integers (floats exact). One defect found and fixed (k_shortest_path sizing).",
+   design="4/C10", technique="TLA+ oracle spec evaluated by TLC on recorded (input, output) pairs"),
+ "C11": dict(
+   text="bellman_ford and find_negative_cycle (f32/f64 graph weights), spfa (i32/i64/f32/f64 costs), floyd_warshall and floyd_warshall_path (i64/f64) run from every source on every admissible encoding x history with costs in -3..4; judged by TLC against OracleC11.tla: NegativeCycle iff one more edge still improves a bounded-length minimum walk, exact distances with INF for unreachable, predecessor maps that are shortest-path trees, closed negative walks for find_negative_cycle.",
+   note="Trusted: TLC, Paths.tla definitions. Inputs bounded (exhaustive n<=3, random n<=5/7). Three defects found and fixed (two in floyd_warshall, one in find_negative_cycle). The suspected spfa false NegativeCycle was not observed.",
+   design="4/C11", technique="TLA+ oracle spec evaluated by TLC on recorded (input, output) pairs"),
+ "C12": dict(
+   text="min_spanning_tree element streams (Graph, StableGraph with vacancies, Csr; i64 and f64 weights with ties) and min_spanning_tree_prim (undirected) judged by TLC against OracleC12.tla: all nodes first in graph order, edges are edges of g (multiset inclusion), acyclic, spanning, |V|-c of them, total weight = minimum over ALL spanning forests (enumerated as k-subsets of the edge set).",
+   note="Trusted: TLC, GraphTheory.tla. Brute-force minimality bounds inputs to <= ~12 edges; binomial union orders up to 16 nodes included for the UnionFind path.",
+   design="4/C12", technique="TLA+ oracle spec evaluated by TLC on recorded (input, output) pairs"),
+ "C16": dict(
+   text="dominators::simple_fast from every root (dominators, strict_dominators, immediate_dominator, immediately_dominated_by) on every encoding of directed graphs, and articulation_points on every encoding of undirected multigraphs with loops, judged by TLC against OracleC16.tla: A dom B iff B is unreachable from the root once A is deleted; cut vertex iff deletion increases the component count.",
+   note="Trusted: TLC, GraphTheory.tla. Inputs bounded (exhaustive n<=3, random n<=6/7). One defect found and fixed (articulation_points sizing).",
+   design="4/C16", technique="TLA+ oracle spec evaluated by TLC on recorded (input, output) pairs"),
  "C19": dict(
    text="TLC exhaustively model-checks UnionFindAbs (equivalence = connectivity generated by the unions; MaxN<=4/5) and UnionFindImpl (parent/rank forest invariants, refinement to Abs); a TLC-generated transition cover of UnionFindImpl plus exhaustive and seeded random histories (all index widths, u8 to 256 elements, out-of-range arguments, panicking variants) are executed on the real UnionFind and every recorded trace is validated by TLC against UnionFindAbs.",
    note="Trusted: TLC + CommunityModules Json, the harness recorder. Exhaustive within MaxN only; beyond, exploration of recorded histories. Memory safety of get_unchecked not decided (only the index arithmetic guarding it).",
